@@ -29,38 +29,38 @@ import (
 
 // Conf describes how a world (one server instance + its storage) is built.
 type Conf struct {
-	Name  string
-	Store string                    // "mem", "dir", "memdir" (memory over a prepared directory)
-	Mod   func(c *config.Config)    // adjust the configuration
-	Prep  func(dir string)          // populate the directory before the server is created
-	Extra map[string]string         // free-form parameters for the check
-	Step  time.Duration             // virtual time that passes after every request (0 = the clock only moves by explicit operations)
-	Shadow string                   // "mem": every request is also served by a memory store instance (store equivalence)
-	Nest  bool                      // the root directory is created inside an outer directory that holds sentinel files
+	Name   string
+	Store  string                 // "mem", "dir", "memdir" (memory over a prepared directory)
+	Mod    func(c *config.Config) // adjust the configuration
+	Prep   func(dir string)       // populate the directory before the server is created
+	Extra  map[string]string      // free-form parameters for the check
+	Step   time.Duration          // virtual time that passes after every request (0 = the clock only moves by explicit operations)
+	Shadow string                 // "mem": every request is also served by a memory store instance (store equivalence)
+	Nest   bool                   // the root directory is created inside an outer directory that holds sentinel files
 }
 
 func bp(b bool) *bool { return &b }
 
 // World is one execution's universe.
 type World struct {
-	Conf   *Conf
-	Dir    string
-	Outer  string // with Conf.Nest: the directory around the root
-	S      *olareg.Server
-	Sh     *olareg.Server // shadow instance (Conf.Shadow)
-	ShPanic string
-	mu      sync.Mutex // guards Dead / AutoViol when scenario threads report handler panics
-	Cfg    config.Config
-	Slots  map[string]string // session slot -> id (for canonical dumps)
-	M      any               // reference model (check specific)
-	Dead   string            // set when the instance must not be used any more (panic, deadlock)
-	Trace  []string          // transcript (only when Verbose)
-	Verbose bool
-	AutoViol []Violation // violations detected by the DSL itself (handler panics)
-	LastResp Resp        // the response of the last request
+	Conf     *Conf
+	Dir      string
+	Outer    string // with Conf.Nest: the directory around the root
+	S        *olareg.Server
+	Sh       *olareg.Server // shadow instance (Conf.Shadow)
+	ShPanic  string
+	mu       sync.Mutex // guards Dead / AutoViol when scenario threads report handler panics
+	Cfg      config.Config
+	Slots    map[string]string // session slot -> id (for canonical dumps)
+	M        any               // reference model (check specific)
+	Dead     string            // set when the instance must not be used any more (panic, deadlock)
+	Trace    []string          // transcript (only when Verbose)
+	Verbose  bool
+	AutoViol []Violation       // violations detected by the DSL itself (handler panics)
+	LastResp Resp              // the response of the last request
 	Aux      map[string]string // scratch values of the check (not part of the state)
-	Hist     []string    // names of the operations of the history being executed (for shape signatures)
-	nreq   int
+	Hist     []string          // names of the operations of the history being executed (for shape signatures)
+	nreq     int
 }
 
 var scratchRoot = func() string {
@@ -199,22 +199,22 @@ func (w *World) Destroy() {
 // ---- requests -----------------------------------------------------------------------------
 
 type Req struct {
-	Method     string
-	Path       string
-	Query      string // raw query
-	Header     map[string]string
-	Body       []byte
-	UnknownLen bool
-	Remote     string
-	Ctx        context.Context
+	Method      string
+	Path        string
+	Query       string // raw query
+	Header      map[string]string
+	Body        []byte
+	UnknownLen  bool
+	Remote      string
+	Ctx         context.Context
 	HeaderMulti map[string][]string
 }
 
 type Resp struct {
-	Status int
-	H      http.Header
-	Body   []byte
-	Panic  string
+	Status  int
+	H       http.Header
+	Body    []byte
+	Panic   string
 	PanicAt string // innermost olareg frame of a handler panic
 }
 
